@@ -334,6 +334,11 @@ func (p *Properties) UnpackWillProperties(bufr *bytes.Buffer) error {
 // of bytes used to store the Prop data and any error in decoding them
 func (p *Properties) Unpack(bufr *bytes.Buffer, packetType byte) error {
 	var err error
+	// the Property Length may be omitted at the end of a short packet (e.g. a DISCONNECT or
+	// PUBACK that only carries a reason code): that means no properties
+	if bufr.Len() == 0 {
+		return nil
+	}
 	length, err := EncodeRemainLength(bufr)
 	// 整个buffer最多只能读到length这么长
 	if err != nil {
